@@ -92,6 +92,14 @@ pub fn programs() -> Vec<String> {
         v.push(format!("inc takes k\ngive back k plus 1\n\nput 0 into c\nwhile c is less than {}\nput inc taking c into c\n\nsay c\n", n));
         v.push(format!("rock w\nput 0 into c\nwhile c is less than {}\nbuild c up\nrock w with c\n\nsay w\nsay w at 0\nsay w at {}\nroll w\nsay w\n", n, n - 1));
     }
+    // empty then-blocks executed n times in one activation; fresh arrays created in every iteration
+    for n in [3usize, 255, 256, 257, 300, 1024] {
+        v.push(format!("put 0 into c\nput 0 into t\nwhile c is less than {}\nbuild c up\nif c\nelse\nsay 0\n\nif c is 0\nelse\nbuild t up\n\n\nsay c\nsay t\n", n));
+        v.push(format!("fun takes k\nput 0 into c\nuntil c is k\nbuild c up\nif c\nelse\ngive back 0\n\n\ngive back c\n\nsay fun taking {}\nsay fun taking {}\n", n, n));
+        v.push(format!("put 0 into c\nput 0 into t\nwhile c is less than {}\nbuild c up\nrock w with c\nlet v at c be c\nlet t be with w plus v at c\n\nsay t\n", n));
+    }
+    v.push("put 0 into c\nwhile c is less than 3\nbuild c up\nrock w with c\nsay w\nsay w at 0\nlet v at \"k\" be c\nlet v at c be c\nsay v\nsay v at 1\nput w into u\nrock u with 9\nsay u\n\n".to_string());
+    v.push("put 0 into c\nuntil c is 3\nbuild c up\nif c is 2\nrock w with 7\n\nrock w with c\nsay w\n\n".to_string());
     v.push("put \"ab\" into x\nput 0 into c\nwhile c is less than 15\nbuild c up\nlet x be with x\n\nsay x at 65535\nsay x at 65536\nsay x at 65537\ncut x into y\nsay y\n".to_string());
     // numbers around printing and table thresholds
     for lit in ["1e15", "1e16", "1e17", "1e21", "1e22", "123456789012345678", "9007199254740993", "4294967296", "2147483648", "65536", "256", "0.1", "0.000001", "0.0000001", "1e300"] {
